@@ -216,7 +216,8 @@ class RC3(RCBase):
 RCS = {1: RC1, 2: RC2, 3: RC3}
 KINDS = {1: P1, 2: P2, 3: P1, 4: P2, 5: I1, 6: I1}      # world ids of Referenceables
 CALLABLES = {7: (1, "cb_a"), 8: (2, "cb_b")}             # world ids of bound methods: (owner, method)
-HANDLER_NAMES = {"dyn-3": 3, "dyn-5": 5}                 # the Tub's name lookup handler
+HANDLER_NAMES = {"dyn-3": 3, "dyn-5": 5, "dyn-6": 6}     # names the application's lookup handler may serve (Serve events)
+PRIV_NAMES = ["priv.a", "priv.b", "priv.c"]              # copytypes of classes registered in PRIVATE registries only
 
 
 class Sink:
@@ -262,7 +263,11 @@ class System:
         self.tub = make_tub(self.net, "s", _pem)
         self.swiss = 0
         self.tub.generateSwissnumber = self._swiss
-        self.tub.registerNameLookupHandler(lambda name: self.objs.get(HANDLER_NAMES.get(name)))
+        self.served = {}            # what the handler answers now: name -> world id
+        self.handler = lambda name: self.objs.get(self.served.get(name))
+        self.handler_on = False
+        # two private copyable registries of the application: one initially empty, one not
+        self.priv = {0: {}, 1: {"priv.seed": (lambda: copyable.RemoteCopyUnslicer(lambda state: None, None))}}
         self.objs = {}
         for wid, cls in KINDS.items():
             self.objs[wid] = cls(wid, self.log)
@@ -321,6 +326,28 @@ class System:
             self.tub.stopService()
             E.turn()
 
+    def register_private(self, name, cls, which, how):
+        """an application class registered for pass-by-copy in a PRIVATE registry, in one of the four documented ways"""
+        reg = self.priv[which]
+        self.added_copy.append(name)          # cleaned up from the global registry afterwards, should it leak there
+        klass = RCS[cls]
+
+        def factory(state, klass=klass):
+            obj = klass()
+            obj.setCopyableState(state)
+            return obj
+        try:
+            if how == "class":
+                type("Dyn_" + name.replace(".", "_"), (klass,), dict(copytype=name, copyableRegistry=reg))
+            elif how == "copy":
+                copyable.registerRemoteCopy(name, klass, registry=reg)
+            elif how == "factory":
+                copyable.registerRemoteCopyFactory(name, factory, registry=reg)
+            else:
+                copyable.registerRemoteCopyUnslicerFactory(name, lambda: copyable.RemoteCopyUnslicer(factory, None), registry=reg)
+        except AssertionError:
+            pass
+
     # ---- snapshots
     def exports(self, c):
         return {clid: (self.wid_of.get(id(t.obj), "?"), t.refcount) for clid, t in self.br[c].myReferenceByCLID.items()}
@@ -368,6 +395,20 @@ class System:
                         self.added_copy.append(ev[1])
                     except AssertionError:
                         pass
+                elif kind == "RegisterCopyPriv":
+                    self.register_private(ev[1], ev[2], ev[3], ev[4])
+                elif kind == "Serve":
+                    if not self.handler_on:
+                        self.tub.registerNameLookupHandler(self.handler)
+                        self.handler_on = True
+                    self.served[ev[1]] = ev[2]
+                elif kind == "Revoke":
+                    self.served.pop(ev[1], None)
+                elif kind == "HandlerOff":
+                    if self.handler_on:
+                        self.tub.unregisterNameLookupHandler(self.handler)
+                        self.handler_on = False
+                    self.served.clear()
                 elif kind == "Grant":
                     c = ev[1]
                     try:
